@@ -130,6 +130,17 @@ class Bounds:
         if r:
             lo, hi = max(lo, r[0]), min(hi, r[1])
         k = a[0]
+        if k == "field" and isinstance(a[1], tuple) and a[1] and a[1][0] in ("obj", "loopvar") and str(a[2]).isdigit():
+            # component of a tuple-typed local, e.g. the value half of a checked arithmetic result `(usize, bool)`
+            f0 = self.W.prog.fns.get(a[1][1])
+            if f0 is not None:
+                tyt = f0.locals[a[1][2]]["ty"].strip()
+                if tyt.startswith("(") and tyt.endswith(")"):
+                    comps = [c.strip() for c in tyt[1:-1].split(",")]
+                    if int(a[2]) < len(comps):
+                        r0 = ty_range(comps[int(a[2])])
+                        if r0:
+                            lo, hi = max(lo, r0[0]), min(hi, r0[1])
 
         def sub(t):
             la = self.lin(t)
@@ -186,6 +197,8 @@ class Bounds:
                 lo, hi = max(lo, 0), min(hi, (ah // (2 ** int(bl))) if ah != INF else INF)
             elif op == "Mul" and al >= 0 and bl >= 0:
                 lo, hi = max(lo, al * bl), min(hi, ah * bh if INF not in (ah, bh) else INF)
+            elif op in ("Eq", "Ne", "Lt", "Le", "Gt", "Ge"):
+                lo, hi = max(lo, 0), min(hi, 1)
             elif op == "Add":
                 lo, hi = max(lo, al + bl), min(hi, ah + bh)
             elif op == "Sub":
@@ -201,6 +214,16 @@ class Bounds:
         elif k == "vfield":
             # payload of a call result: typed via tty only
             pass
+        elif k == "call":
+            nm = values.strip_generics(a[1]).split("::")[-1]
+            if nm == "output_len" and "digest" in a[1]:
+                lo, hi = max(lo, 1), min(hi, 64)       # ring digests are at most 64 bytes (SHA-512)
+            elif a[1] in self.W.prog.fns and depth < 3:
+                # crate-local accessor: bound by its (inlined) return value
+                r = self.ev.inline(a) if a[3][0] == self.fn.path else self.W.ev(a[3][0]).inline(a) if len(a) > 3 and a[3] else a
+                if r != a:
+                    l2, h2 = sub(r)
+                    lo, hi = max(lo, l2), min(hi, h2)
         return lo, hi
 
     def snapshot_valid(self, a, bb):
